@@ -337,12 +337,14 @@ func report(prop, tier string, seed int, ps PropSpec, results []*harnessResult, 
 				inconclusive = append(inconclusive, fmt.Sprintf("%s: witness replay for %s failed: %v", r.Spec.Fn, id, err))
 				continue
 			}
-			if out.reached[id] {
+			if out.reached[id] && len(out.failed) > 0 && len(e.Failures) == 0 {
+				inconclusive = append(inconclusive, fmt.Sprintf("%s%v: the native run of the witness for %s fails %s although every obligation was discharged (ENGINE-MISMATCH)", r.Spec.Fn, r.Spec.Params, id, out.summary()))
+			} else if out.reached[id] {
 				validated++
 			} else if out.assumeFailed {
 				inconclusive = append(inconclusive, fmt.Sprintf("%s: witness for %s falls outside the native assumption (ENGINE-MISMATCH)", r.Spec.Fn, id))
 			} else {
-				inconclusive = append(inconclusive, fmt.Sprintf("%s: native run of the witness did not reach %s (ENGINE-MISMATCH) %s", r.Spec.Fn, id, out.summary()))
+				inconclusive = append(inconclusive, fmt.Sprintf("%s%v: native run of the witness did not reach %s (ENGINE-MISMATCH) %s raw=%s", r.Spec.Fn, r.Spec.Params, id, out.summary(), truncStr(out.raw, 300)))
 			}
 		}
 		if e.Obligations == 0 && len(e.Failures) == 0 {
